@@ -8,7 +8,8 @@ ID = "C18"
 COQ_DIR = "C18"
 RUN_MOD = "C18.Run"
 MODEL_TARGETS = ["C18/Run.vo"]
-PROOF_TARGETS = ["C18/Lemmas.vo", "C18/LemmasLadder.vo", "C18/LemmasCoord.vo", "C18/LemmasRange.vo", "C18/LemmasSession.vo"]
+PROOF_TARGETS = ["C18/Lemmas.vo", "C18/LemmasLadder.vo", "C18/LemmasCoord.vo", "C18/LemmasRange.vo", "C18/LemmasSession.vo",
+                 "C18/LemmasMulti.vo"]
 PROPS = ["C18/Props.v"]
 ALLOWED_AXIOMS = []
 IMPL_TIMEOUT = 10.0
@@ -523,6 +524,21 @@ def gen_sheet_case(rng, wide=False, force=None):
         cols[at:at] = fill_cols
     if not cols:
         cols.append((_blank(rng), _cv("str")))
+    rows, qkeys, stop, ladder = _finish_sheet(rng, cols, force)
+    return {"k": "read", "rows": rows, "rules": rules, "nid": nid, "stop": stop, "ladder": bool(ladder),
+            "qkeys": qkeys, "misuse": bool(misuse), "title": _ws_title(rng)}
+
+
+WS_TITLES = ["Sheet 1", "pupils", "a b c", "Ünï x", "'q'", "x)y", " lead", "tab\tx", "2020", "two  spaces", "(", "n/a"]
+
+
+def _ws_title(rng):
+    return "sheet1" if rng.random() < 0.4 else rng.choice(WS_TITLES)
+
+
+def _finish_sheet(rng, cols, force):
+    """title row, data rows (ladder runs of blanks), leading blank rows, end row + trailing content for the columns
+    cols = [(title cell value, converter of the data cells)] -> (rows, qkeys, stop, ladder)"""
     width = len(cols)
 
     ladder = force.get("ladder", rng.random() < 0.4)
@@ -587,8 +603,7 @@ def gen_sheet_case(rng, wide=False, force=None):
     qkeys = stripped_titles[:12] + ["no such key"]
     if len(stripped_titles) > 12:
         qkeys += rng.sample(stripped_titles[12:], min(4, len(stripped_titles) - 12))
-    return {"k": "read", "rows": rows, "rules": rules, "nid": nid, "stop": stop, "ladder": bool(ladder),
-            "qkeys": qkeys, "misuse": bool(misuse)}
+    return rows, qkeys, stop, ladder
 
 
 def gen_cases(rng, tier):
@@ -610,6 +625,15 @@ def gen_cases(rng, tier):
             c["rows"][j] = c["rows"][j][:cut]
             c["ragged"] = True
             cases.append(c)
+    # several object classes read from one table (XlsTableReader(r1, ..., rn)): 2-3 rule sets, overlapping / disjoint columns,
+    # ranged attributes in one or several of them, the columns of one object next to / inside the would-be range of another
+    for i in range(1500 if big else 170):
+        force = None
+        if i % 5 == 0:
+            force = {"ladder": True, "stop": rng.choice(["blank all", "blank all", "blank first"])}
+        elif i % 5 == 1:
+            force = {"ladder": False, "stop": rng.choice(["blank all", "blank first"])}
+        cases.append(gen_multi_case(rng, wide=(i % 17 == 0), force=force))
     # sessions: several readings in one process, class hierarchies with the TableReader mixin, edits of produced values
     sess = [gen_session_case(rng, "hier" if i % 2 else "alias") for i in range(800 if big else 120)]
     # spread evenly (a session costs about three single readings: keeps the Coq shards balanced)
@@ -628,12 +652,23 @@ def search_cases(rng, tier):
         out.append(gen_sheet_case(rng, wide=(i % 6 == 0), force={"ladder": True} if i % 3 == 0 else None))
     for i in range(1500):
         out.append(gen_session_case(rng, "hier" if i % 2 else "alias"))
+    for i in range(2500):
+        out.append(gen_multi_case(rng, wide=(i % 10 == 0), force={"ladder": True} if i % 3 == 0 else None))
     return out
 
 
 def kind(case):
     if case.get("k") == "sess":
         return "session-" + case.get("flavour", "?")
+    if case.get("k") == "multi":
+        parts = [f"multi{len(case['objs'])}", "ladder" if case["ladder"] else "plain",
+                 "first" if case["stop"] == "blank first" else "all"]
+        nr = sum(1 for ob in case["objs"] for r in ob["rules"] if r["t"] == "range")
+        if nr:
+            parts.append(f"range{min(nr, 2)}")
+        if case.get("muts"):
+            parts.append("edits")
+        return "-".join(parts)
     parts = ["ladder" if case["ladder"] else "plain",
              "first" if case["stop"] == "blank first" else "all"]
     if any(r["t"] == "range" for r in case["rules"]):
@@ -738,6 +773,15 @@ def _obs_obj(o, names, qkeys, with_origins=True):
     it = {"attrs": attrs}
     if with_origins:
         it["unk"] = _res(o.get_attr_origin, "no_such_attribute")
+        # what depends on the worksheet title: str(obj) up to the logic id, the origins with incl_ws=True
+        def head():
+            text, tail = str(o), f"{o.logic_id}>"
+            return text[:-len(tail)] if text.endswith(tail) else "?" + text
+        it["head"] = _res(head)
+        it["ws"] = [[_res(o.get_attr_origin, name, incl_ws=True),
+                     [_res(o.get_attr_origin, name, k, incl_ws=True, strict=False) for k in qkeys]] for name in names]
+        it["wsunk"] = _res(o.get_attr_origin, "no_such_attribute", incl_ws=True)
+        it["lid"] = _res(lambda: _canon_key(o.logic_id))
     return it
 
 
@@ -745,7 +789,7 @@ def _read(xl, case, rows, ladder, with_origins=True):
     n = len(case["rules"])
     names = [f"a{i}" for i in range(n)]
     cls = type("XlGen", (xl.XlsObject,), {"_ATTRS": names, "_NUM_ID_ATTRS": case["nid"]})
-    ws = _Worksheet("sheet1", rows)
+    ws = _Worksheet(case.get("title", "sheet1"), rows)
     items = []
     err = None
     try:
@@ -763,6 +807,8 @@ def impl_run(case):
     from ak import xlsread as xl
     if case.get("k") == "sess":
         return _run_session(xl, case)
+    if case.get("k") == "multi":
+        return _run_multi(xl, case)
     obs = _read(xl, case, case["rows"], case["ladder"])
     if case["ladder"] and _is_rect(case):
         # the property's second sentence: the same table with the "same as above" cells filled in, read plainly
@@ -818,13 +864,21 @@ def _c_strs(l):  # noqa: E741
     return "(@nil (list Z))" if not l else "[" + "; ".join(SX.cstr(s) for s in l) + "]"
 
 
+def _c_rows(rows):
+    return "[" + "; ".join(_c_cvals(r) for r in rows) + "]" if rows else "(@nil (list cval))"
+
+
+def _c_rules(rules):
+    return "[" + "; ".join(_c_rule(r) for r in rules) + "]" if rules else "(@nil rule)"
+
+
 def coq_case(case, obs):
     if case.get("k") == "sess":
         return _coq_session(case)
-    rows = "[" + "; ".join(_c_cvals(r) for r in case["rows"]) + "]" if case["rows"] else "(@nil (list cval))"
-    rules = "[" + "; ".join(_c_rule(r) for r in case["rules"]) + "]" if case["rules"] else "(@nil rule)"
-    return (f"Read {rows} {rules} {SX.cnat(case['nid'])} {SX.cstr(case['stop'])} "
-            f"{SX.cbool(case['ladder'])} {_c_strs(case['qkeys'])}")
+    if case.get("k") == "multi":
+        return _coq_multi(case)
+    return (f"Read {SX.cstr(case.get('title', 'sheet1'))} {_c_rows(case['rows'])} {_c_rules(case['rules'])} "
+            f"{SX.cnat(case['nid'])} {SX.cstr(case['stop'])} {SX.cbool(case['ladder'])} {_c_strs(case['qkeys'])}")
 
 
 def _sx_simple(v):
@@ -872,18 +926,21 @@ def hash_sx(x, h=1):
     return (h * H_B + 5) % H_P
 
 
-def full_sx(case, obs):
+def obj_sx(it, rules, ws=False):
+    """one object as C18/Run.v encodes it: sx_obj (ws=False, sessions) / sx_obj_ws (single and multi readings)"""
+    attrs = []
+    for a, ru in zip(it["attrs"], rules):
+        attrs.append([_sx_value(a["v"], ru), _sx_res(a["o"]), [_sx_res(r) for r in a["ko"]], [_sx_res(r) for r in a["kn"]]])
+    attrs.append(_sx_res(it["unk"]))
+    if not ws:
+        return attrs
+    head = SX.s(it["head"][1]) if it["head"][0] == "ok" else [-1]
+    return [attrs, head, [[_sx_res(w[0]), [_sx_res(r) for r in w[1]]] for w in it["ws"]], _sx_res(it["wsunk"])]
+
+
+def full_sx(case, obs, ws=False):
     """the full observation, as C18/Run.v run_full encodes it"""
-    items = []
-    for it in obs["items"]:
-        if it is None:
-            items.append([])
-            continue
-        attrs = []
-        for a, ru in zip(it["attrs"], case["rules"]):
-            attrs.append([_sx_value(a["v"], ru), _sx_res(a["o"]), [_sx_res(r) for r in a["ko"]], [_sx_res(r) for r in a["kn"]]])
-        attrs.append(_sx_res(it["unk"]))
-        items.append([attrs])
+    items = [[] if it is None else [obj_sx(it, case["rules"], ws)] for it in obs["items"]]
     e = [] if obs["err"] is None else [SX.ERR_CODES.get(obs["err"], SX.ERR_OTHER)]
     return [items, e]
 
@@ -891,7 +948,9 @@ def full_sx(case, obs):
 def expected_sx(case, obs):
     if case.get("k") == "sess":
         return _expected_session(case, obs)
-    items, e = full_sx(case, obs)
+    if case.get("k") == "multi":
+        return _expected_multi(case, obs)
+    items, e = full_sx(case, obs, ws=True)
     return SX.dumps([[[0] if not it else hash_sx(it[0]) for it in items], e])
 
 
@@ -998,8 +1057,10 @@ def _table_rows(rows, stop):
     return t, out
 
 
-def _expected_run(titles, rules):
-    known = {ru["col"] for ru in rules if ru["t"] == "plain" and ru["col"] != "*"}
+def _expected_run(titles, rules, extra=()):
+    """the columns of the range group: the first maximal run of titled columns that no rule claims by name
+    (extra: the names claimed by the rules of the OTHER object classes read from the same table)"""
+    known = {ru["col"] for ru in rules if ru["t"] == "plain" and ru["col"] != "*"} | set(extra)
     run = []
     started = False
     for i, t in enumerate(titles):
@@ -1017,9 +1078,12 @@ def oracle(case, obs):
         return [("hang", "read_table did not return")]
     if case.get("k") == "sess":
         return _oracle_session(case, obs)
+    if case.get("k") == "multi":
+        return _oracle_multi(case, obs)
     if case.get("ragged") or not _is_rect(case):
         return []       # outside the property's quantifier (openpyxl rows are rectangular)
     out = []
+    extra = case.get("known_extra", ())
     rows = case["rows"]
     rules = case["rules"]
     stop = case["stop"]
@@ -1054,16 +1118,23 @@ def oracle(case, obs):
     else:
         if len(items) > len(data_idx):
             add("row-count", f"{len(items)} items yielded before {err} but only {len(data_idx)} data rows")
-        elif not misuse:
+        elif not misuse and not case.get("err_elsewhere"):
             # an exception is acceptable only where the declared rules cannot be applied
+            # (err_elsewhere: several object classes per table, the exception is accounted for by _oracle_multi)
             why = _legit_error(case, filled, t, titles, data_idx, len(items))
             if why is None:
                 add("unexpected-error", f"{err} after {len(items)} items although every cell of the next row converts "
                                         f"and all required columns exist; rows={rows!r} rules={rules!r}")
     if t is None:
         return out
-    run_cols = _expected_run(titles, rules)
+    run_cols = _expected_run(titles, rules, extra)
     run_keys = {titles[c] for c in run_cols}
+    ws_name = case.get("title", "sheet1")
+    if " " in ws_name:
+        ws_name = f"'{ws_name}'"
+
+    def with_ws(r):
+        return ["ok", ws_name + " " + r[1]] if r[0] == "ok" else r
 
     # ---- (2) per object / attribute: value == convert(cell(s) at the reported origin), or the default
     for j, it in enumerate(items):
@@ -1087,6 +1158,25 @@ def oracle(case, obs):
                 if not raw_none and any(v is not _UNKNOWN and v != ["n"] for v in vals):
                     add("spurious-none", f"row {R} gave None although its id attributes read {vals!r}")
             continue
+        if "ws" in it:
+            # incl_ws=True puts "<sheet name> " (quoted when it has a space) in front of what is reported without it;
+            # str(obj) names the class, the sheet and the anchor cell (= the cell of the first attribute)
+            for i, (a, w) in enumerate(zip(it["attrs"], it["ws"])):
+                if w[0] != with_ws(a["o"]) or w[1] != [with_ws(r) for r in a["kn"]]:
+                    add("origin-ws-prefix", f"object {j} (row {R}) attribute {i}: get_attr_origin(..., incl_ws=True) gives {w!r}, "
+                                            f"without incl_ws {a['o']!r} / {a['kn']!r}, sheet title {case.get('title', 'sheet1')!r}")
+            if it["wsunk"] != with_ws(it["unk"]):
+                add("origin-ws-prefix", f"object {j}: unknown attribute with incl_ws=True gives {it['wsunk']!r}")
+            if it["attrs"] and it["attrs"][0]["o"][0] == "ok" and not misuse:
+                want_head = f"<{case.get('cname', 'XlGen')}({ws_name} {it['attrs'][0]['o'][1]}) "
+                if it["head"] != ["ok", want_head]:
+                    add("str-head", f"object {j} (row {R}): str(obj) starts {it['head']!r}, expected {want_head!r}")
+            k = case["nid"]
+            if not misuse and k <= len(it["attrs"]) and all(a["v"][0] in "nbislS" for a in it["attrs"][:k]):
+                vals = [a["v"] for a in it["attrs"][:k]]
+                want_lid = vals[0] if k == 1 else ["t", vals]
+                if it["lid"] != ["ok", want_lid]:
+                    add("logic-id", f"object {j} (row {R}): logic_id is {it['lid']!r}, the id attributes are {vals!r}")
         for i, (a, ru) in enumerate(zip(it["attrs"], rules)):
             where = f"object {j} (row {R}) attribute {i} {ru!r}"
             v = a["v"]
@@ -1268,12 +1358,23 @@ def _ref_attr_value(ru, row, titles, run_cols):
         return _UNKNOWN
 
 
+def _err_explained(case, n_items):
+    """may reading case['rows'] with case['rules'] raise after n_items items? (misuse of the class counts)"""
+    rows = case["rows"]
+    filled = ref_fill(rows) if case["ladder"] else rows
+    t, data_idx = _table_rows(filled, case["stop"])
+    titles = [_title(v) for v in rows[t]] if t is not None else []
+    if _is_misuse(case, titles):
+        return True
+    return _legit_error(case, filled, t, titles, data_idx, n_items) is not None
+
+
 def _legit_error(case, filled, t, titles, data_idx, n_items):
     """reason why the reading may raise after n_items items, or None"""
     rules = case["rules"]
     if t is None:
         return None
-    run_cols = _expected_run(titles, rules)
+    run_cols = _expected_run(titles, rules, case.get("known_extra", ()))
     for ru in rules:
         if ru["t"] == "plain" and ru["col"] not in titles and "def" not in ru:
             return "required column missing"
@@ -1301,6 +1402,8 @@ def _legit_error(case, filled, t, titles, data_idx, n_items):
 
 
 def nontrivial(case, obs):
+    if case.get("k") == "multi":
+        return isinstance(obs, dict) and any(it is not None for tup in obs.get("tuples", []) for it in tup)
     if case.get("k") == "sess":
         return isinstance(obs, dict) and sum(1 for rd in obs.get("reads", []) if any(it is not None for it in rd["items"])) >= 2
     return isinstance(obs, dict) and any(it is not None for it in obs.get("items", []))
@@ -1311,12 +1414,17 @@ def outcome(case, obs):
         return "hang"
     if case.get("k") == "sess":
         return "sess:" + ("err" if any(rd["err"] for rd in obs["reads"]) else "ok")
+    if case.get("k") == "multi":
+        return f"multi:{'err:' + obs['err'] if obs['err'] else 'ok'}:{min(obs['n'], 4)}{'+' if obs['n'] > 4 else ''}"
     return f"{'err:' + obs['err'] if obs['err'] else 'ok'}:{min(len(obs['items']), 4)}{'+' if len(obs['items']) > 4 else ''}"
 
 
 def shrink_candidates(case):
     if case.get("k") == "sess":
         yield from _shrink_session(case)
+        return
+    if case.get("k") == "multi":
+        yield from _shrink_multi(case)
         return
     rows = case["rows"]
     # drop a row
@@ -1804,7 +1912,7 @@ def _oracle_session(case, obs):
         # (a) the property, on what the reading produced (as observed when it was produced)
         if not (st["via"] in WHOLE_VIAS and rd["err"] is not None):
             pc = {"k": "read", "rows": st["rows"], "rules": rules, "nid": nid, "stop": stop, "ladder": ladder,
-                  "qkeys": st["qkeys"]}
+                  "qkeys": st["qkeys"], "cname": f"XlC{st['cls']}"}
             for sig, msg in oracle(pc, {"items": rd["items"], "err": rd["err"]}):
                 out.append((sig, f"{tag}: {msg}"))
         # (b) objects of the class that was asked to read
@@ -1897,10 +2005,10 @@ def _title_idx(rows):
     return next((i for i, r in enumerate(rows) if not all(_is_blank(v) for v in r)), None)
 
 
-def _mutables(rules, titles):
+def _mutables(rules, titles, extra=()):
     """(attribute index, inner key or None) of the values a caller can edit in place"""
     out = []
-    run = [titles[c] for c in _expected_run(titles, rules)]
+    run = [titles[c] for c in _expected_run(titles, rules, extra)]
     for i, ru in enumerate(rules):
         if ru["t"] == "plain" and ru["cv"]["k"] in ("list", "set"):
             out.append((i, None))
@@ -2195,6 +2303,344 @@ def gen_session_case(rng, flavour):
             if len(read_info) >= 2 and rng.random() < 0.4:
                 add_muts(rng.randrange(len(read_info) - 1), 0.3)
     return {"k": "sess", "flavour": flavour, "classes": classes, "steps": steps}
+
+
+
+# ------------------------------------------------------------------ several object classes read from one table
+# XlsTableReader(rules_1, ..., rules_n).iter_table(ws): every table row yields a tuple of n objects.  The column names
+# claimed by name are those of ALL rule sets (a ranged attribute of one object must not swallow the columns of another).
+# Model: Model.read_table_m; Run.ReadM (the reading as a Session [OReadM; OMut ...]: the caller edits values of the objects
+# afterwards and every object is observed again at the end).
+def _multi_known(case):
+    return sorted({ru["col"] for ob in case["objs"] for ru in ob["rules"] if ru["t"] == "plain" and ru["col"] != "*"})
+
+
+def _multi_pc(case, i, rows=None):
+    """the i-th object class of a multi reading as a single-class case for the oracle"""
+    ob = case["objs"][i]
+    return {"k": "read", "rows": case["rows"] if rows is None else rows, "rules": ob["rules"], "nid": ob["nid"],
+            "stop": case["stop"], "ladder": case["ladder"], "qkeys": case["qkeys"], "title": case.get("title", "sheet1"),
+            "cname": ob["name"], "known_extra": _multi_known(case), "err_elsewhere": True}
+
+
+def gen_multi_case(rng, wide=False, force=None):
+    force = force or {}
+    n_objs = force.get("n_objs", rng.choice([2, 2, 2, 2, 2, 3, 3, 3, 1, 0] if rng.random() < 0.25 else [2, 2, 3]))
+    titles_pool = rng.sample(TITLE_POOL, len(TITLE_POOL))
+    kinds = force.get("kinds", CONV_KINDS)
+    misuse = rng.random() < 0.04
+    objs = []
+    known_cols = []         # (title, conv) of the columns present in the sheet for plain attributes, all objects
+    range_rules = []
+    want_ranges = rng.choice([0, 1, 1, 1, 2, 2, 3])
+    for oi in range(n_objs):
+        if objs and rng.random() < 0.07:
+            # the same rules (even the same XlsObjReadRules object) a second time
+            k = rng.randrange(len(objs))
+            objs.append({"name": f"XlM{oi}", "rules": [dict(r) for r in objs[k]["rules"]], "nid": objs[k]["nid"], "same_as": k})
+            continue
+        n_attrs = rng.randint(1, 4)
+        rules = []
+        for i in range(n_attrs):
+            r = rng.random()
+            if i == 0 and not misuse:
+                r = 0.0     # the first attribute must come from a cell (anchor)
+            elif len(range_rules) < want_ranges and rng.random() < 0.45:
+                r = 0.9
+            if r < 0.55 or (r >= 0.68 and len(range_rules) >= want_ranges):
+                cv = _conv(rng, kinds)
+                if known_cols and rng.random() < 0.15:
+                    title, cv0 = rng.choice(known_cols)     # a column that another attribute / another object reads too
+                    if rng.random() < 0.8:
+                        cv = dict(cv0)
+                else:
+                    title = titles_pool.pop() if titles_pool else f"T{len(known_cols)}"
+                ru = {"t": "plain", "col": title, "cv": cv}
+                present = True
+                if rng.random() < 0.3:
+                    ru["def"] = _default(rng)
+                    present = rng.random() < 0.5 or i == 0 and not misuse
+                elif misuse and rng.random() < 0.3:
+                    present = False            # required column missing -> ValueError
+                if present and not any(t == title for t, _ in known_cols):
+                    known_cols.append((title, cv))
+                rules.append(ru)
+            elif r < 0.68:
+                form = rng.choice(["none", "tuple", "callable"])
+                d = {"v": None} if form == "none" else _default(rng)
+                rules.append({"t": "ext", "def": d, "form": form})
+            else:
+                ru = {"t": "range", "dict": rng.random() < 0.55,
+                      "cv": dict(range_rules[0]["cv"]) if range_rules and rng.random() < 0.85 else
+                      _conv(rng, force.get("rkinds", ["bool", "int", "str", "bool", "list", "set"]))}
+                if rng.random() < 0.3:
+                    ru["def"] = _default(rng)
+                rules.append(ru)
+                range_rules.append(ru)
+        nid = rng.choice([0, 1, 1, 1, 2, min(3, n_attrs)]) if not misuse else rng.choice([0, 1, 2, n_attrs, n_attrs + 1])
+        nid = min(nid, n_attrs) if not misuse else nid
+        if not misuse and rng.random() < 0.85:
+            # id attributes that are read from cells of present columns (anything else is an AttributeError by construction)
+            lead = 0
+            while lead < len(rules) and rules[lead]["t"] == "plain" and any(t == rules[lead]["col"] for t, _ in known_cols):
+                lead += 1
+            nid = min(nid, lead)
+        objs.append({"name": f"XlM{oi}", "rules": rules, "nid": nid})
+
+    # ---- columns: the known columns of all objects, the unknown ones as ONE run or scattered between them
+    cols = list(known_cols)
+    rng.shuffle(cols)
+    unknown = rng.sample(UNKNOWN_POOL, len(UNKNOWN_POOL))
+    range_cv = range_rules[0]["cv"] if range_rules else None
+    n_unknown = rng.choice([1, 2, 2, 3, 3, 4, 5]) if (range_rules and rng.random() < 0.92) or rng.random() < 0.4 else 0
+    if not n_unknown:
+        for ru in range_rules:
+            if rng.random() < 0.75:
+                ru.setdefault("def", _default(rng))
+        for ob in objs:         # copies of the rules (same_as) follow
+            if "same_as" in ob:
+                ob["rules"] = [dict(r) for r in objs[ob["same_as"]]["rules"]]
+    if wide:
+        n_unknown = max(n_unknown, rng.randint(2, 6))
+    run = [(unknown.pop(), range_cv or _cv("str")) for _ in range(n_unknown)]
+    if len(run) >= 2 and rng.random() < 0.06:
+        run[-1] = (run[0][0], run[-1][1])        # duplicate title inside the run
+    layout = rng.choice(["run", "run", "scatter", "scatter", "split"])
+    if layout == "run" or wide:
+        pos = rng.randint(0, len(cols))
+        cols[pos:pos] = run
+    elif layout == "scatter":
+        for c in run:
+            cols.insert(rng.randint(0, len(cols)), c)       # columns of this / the other objects inside the would-be range
+    else:
+        cut = rng.randint(0, len(run))
+        p1 = rng.randint(0, len(cols))
+        cols[p1:p1] = run[:cut]
+        p2 = rng.randint(0, len(cols))
+        cols[p2:p2] = run[cut:]
+    for _ in range(rng.choice([0, 0, 0, 1, 1, 2])):
+        cols.insert(rng.randint(0, len(cols)), (_blank(rng), _cv("str")))
+    if rng.random() < 0.05 and cols:
+        c = rng.choice(cols)
+        cols.insert(rng.randint(0, len(cols)), c)       # duplicate title (the later column wins in col_names_ids)
+    if wide:
+        first_run = next((i for i, c in enumerate(cols) if c in run), len(cols))
+        filler = max(0, rng.choice([22, 23, 24, 25, 26, 27]) - first_run)
+        at = rng.randint(0, first_run)
+        cols[at:at] = [(None if rng.random() < 0.8 else "", _cv("str")) for _ in range(filler)]
+    if not cols:
+        cols.append((_blank(rng), _cv("str")))
+    rows, qkeys, stop, ladder = _finish_sheet(rng, cols, force)
+    case = {"k": "multi", "title": _ws_title(rng), "rows": rows, "objs": objs, "stop": stop, "ladder": bool(ladder),
+            "qkeys": qkeys, "misuse": bool(misuse), "share_conv": rng.random() < 0.5, "muts": []}
+    # ---- the caller edits values of the produced objects afterwards (aliasing between the objects of a tuple / of rows)
+    if objs and rng.random() < 0.7:
+        titles = _titles_of(rows)
+        known = _multi_known(case)
+        t = _title_idx(rows)
+        nrows = 0 if t is None else min(8, len(rows) - t - 1)
+        targets = [(r * len(objs) + i, a, inner) for r in range(nrows) for i, ob in enumerate(objs)
+                   for a, inner in _mutables(ob["rules"], titles, known)]
+        density = rng.choice([1.0, 0.5, 0.2])
+        targets = [x for x in targets if rng.random() < density]
+        rng.shuffle(targets)
+        for n, (j, a, inner) in enumerate(targets[:16]):
+            m = {"j": j, "a": a, "m": f"{MARK}{n + 1}"}
+            if inner is not None:
+                m["inner"] = inner
+            case["muts"].append(m)
+    return case
+
+
+def _run_multi(xl, case):
+    obs = _read_multi(xl, case, case["rows"], case["ladder"], True)
+    if case["ladder"] and _is_rect(case):
+        f = _read_multi(xl, case, ref_fill(case["rows"]), False, False)
+        obs["filled"] = {"tuples": f["tuples"], "err": f["err"]}
+    return obs
+
+
+def _read_multi(xl, case, rows, ladder, full):
+    objs = case["objs"]
+    n = len(objs)
+    ws = _Worksheet(case.get("title", "sheet1"), rows)
+    convs = {}
+
+    def conv(cv):
+        if not case.get("share_conv"):
+            return _mk_conv(xl, cv)
+        key = repr(sorted(cv.items()))
+        if key not in convs:
+            convs[key] = _mk_conv(xl, cv)
+        return convs[key]
+    names = [[f"a{i}" for i in range(len(ob["rules"]))] for ob in objs]
+    tuples, produced, err = [], [], None
+    shape_ok = cls_ok = True
+    try:
+        classes, rrs = [], []
+        for oi, ob in enumerate(objs):
+            classes.append(type(ob["name"], (xl.XlsObject,), {"_ATTRS": names[oi], "_NUM_ID_ATTRS": ob["nid"]}))
+            if "same_as" in ob and case.get("share_conv"):
+                rrs.append(xl.XlsObjReadRules(classes[oi], rrs[ob["same_as"]].attrs_rules and
+                                              _mk_rules_with(xl, ob["rules"], conv)))
+            else:
+                rrs.append(xl.XlsObjReadRules(classes[oi], _mk_rules_with(xl, ob["rules"], conv)))
+        reader = xl.XlsTableReader(*rrs)
+        for tup in reader.iter_table(ws, stop_on=case["stop"], ladder_format=ladder):
+            if not isinstance(tup, (list, tuple)) or len(tup) != n:
+                shape_ok = False
+                tup = list(tup)[:n] if isinstance(tup, (list, tuple)) else []
+                tup = list(tup) + [None] * (n - len(tup))
+            for oi, o in enumerate(tup):
+                if o is not None and type(o) is not classes[oi]:
+                    cls_ok = False
+            produced.append(list(tup))
+            tuples.append([None if o is None else _obs_obj(o, names[oi], case["qkeys"], full) for oi, o in enumerate(tup)])
+    except BaseException as e:  # noqa
+        if type(e).__name__ == "Hang":
+            raise
+        err = SX.exc_name(e)
+    out = {"n": len(tuples), "tuples": tuples, "err": err, "shape_ok": shape_ok, "cls_ok": cls_ok}
+    if full:
+        flat = [(oi, o) for tup in produced for oi, o in enumerate(tup)]
+        for m in case.get("muts", []):
+            if m["j"] < len(flat):
+                oi, o = flat[m["j"]]
+                if o is not None and m["a"] < len(names[oi]):
+                    _apply_mut(o, names[oi][m["a"]], m.get("inner"), m["m"])
+        out["end"] = [None if o is None else _obs_obj(o, names[oi], case["qkeys"]) for oi, o in flat]
+    return out
+
+
+def _mk_rules_with(xl, rules, conv):
+    """like _mk_rules, the converter objects come from conv(cv) (shared between the object classes or not)"""
+    out = {}
+    for i, ru in enumerate(rules):
+        name = f"a{i}"
+        if ru["t"] == "plain":
+            cv = conv(ru["cv"])
+            out[name] = (ru["col"], cv, {"default_val": ru["def"]["v"]}) if "def" in ru else (ru["col"], cv)
+        elif ru["t"] == "ext":
+            form = ru.get("form", "tuple")
+            dv = ru["def"]["v"]
+            if form == "none":
+                out[name] = None
+            elif form == "callable":
+                out[name] = (None, None, {"default_val": (lambda dv=dv: list(dv) if isinstance(dv, list) else dv)})
+            else:
+                out[name] = (None, None, {"default_val": dv})
+        else:
+            rc = (xl.CellRangeDict if ru["dict"] else xl.CellRangeSet)(conv(ru["cv"]))
+            out[name] = ("*", rc, {"default_val": ru["def"]["v"]}) if "def" in ru else ("*", rc)
+    return out
+
+
+def _coq_multi(case):
+    objs = "[" + "; ".join(f"({SX.cstr(ob['name'])}, ({_c_rules(ob['rules'])}, {SX.cnat(ob['nid'])}))" for ob in case["objs"]) + "]" \
+        if case["objs"] else "(@nil (list Z * (list rule * nat)))"
+    muts = []
+    for m in case.get("muts", []):
+        inner = "None" if m.get("inner") is None else f"(Some {SX.cstr(m['inner'])})"
+        muts.append(f"({SX.cnat(m['j'])}, {SX.cnat(m['a'])}, {inner}, {SX.cstr(m['m'])})")
+    mtxt = "[" + "; ".join(muts) + "]" if muts else "(@nil (nat * nat * option (list Z) * list Z))"
+    return (f"ReadM {SX.cstr(case.get('title', 'sheet1'))} {_c_rows(case['rows'])} {objs} {SX.cstr(case['stop'])} "
+            f"{SX.cbool(case['ladder'])} {_c_strs(case['qkeys'])} {mtxt}")
+
+
+def _expected_multi(case, obs):
+    n = len(case["objs"])
+    hs = []
+    for j, it in enumerate(obs["end"]):
+        if it is None:
+            hs.append([0])
+        elif not obs["cls_ok"]:
+            hs.append(-1)       # objects of another class than the i-th rule set's: never the model's
+        else:
+            hs.append(hash_sx(obj_sx(it, case["objs"][j % n]["rules"], ws=True)))
+    e = [] if obs["err"] is None else [SX.ERR_CODES.get(obs["err"], SX.ERR_OTHER)]
+    return SX.dumps([obs["n"] if obs["shape_ok"] else -1, [hs, e]])
+
+
+def _oracle_multi(case, obs):
+    if case.get("ragged") or not _is_rect(case):
+        return []
+    objs = case["objs"]
+    n = len(objs)
+    if any(ru["t"] == "plain" and ru["col"] == "*" for ob in objs for ru in ob["rules"]):
+        return []
+    out = []
+    if not obs["shape_ok"]:
+        out.append(("tuple-shape", f"a table row did not yield a sequence of {n} items (one per rule set)"))
+    if not obs["cls_ok"]:
+        out.append(("object-class", "the i-th item of a tuple is not an instance of the class of the i-th rule set"))
+    err = obs["err"]
+    # (a) the property for every object class, with the column names claimed by ALL rule sets as the known ones
+    for i in range(n):
+        pc = _multi_pc(case, i)
+        po = {"items": [tup[i] for tup in obs["tuples"]], "err": err}
+        if "filled" in obs:
+            po["filled"] = {"items": [tup[i] for tup in obs["filled"]["tuples"]], "err": obs["filled"]["err"]}
+        for sig, msg in oracle(pc, po):
+            out.append((sig, f"object class {i} of {n}: {msg}"))
+    # (b) an exception only where the rules of SOME object class cannot be applied
+    if err is not None and n and not any(_err_explained(_multi_pc(case, i), obs["n"]) for i in range(n)):
+        out.append(("unexpected-error", f"{err} after {obs['n']} tuples although the rules of every object class can be applied "
+                                        f"to the next row; rows={case['rows']!r} objs={objs!r}"))
+    if n == 0:
+        # no rule set: one empty tuple per data row
+        rows = case["rows"]
+        filled = ref_fill(rows) if case["ladder"] else rows
+        _t, data_idx = _table_rows(filled, case["stop"])
+        if err is None and obs["n"] != len(data_idx) and not (case["ladder"] and case["stop"] == "blank first"):
+            out.append(("row-count", f"{obs['n']} tuples for {len(data_idx)} data rows"))
+    # (c) the caller's edits: a value at the end = the value read + the caller's own edits of THAT value
+    muts = {}
+    for m in case.get("muts", []):
+        muts.setdefault((m["j"], m["a"]), []).append((m.get("inner"), m["m"]))
+    flat0 = [it for tup in obs["tuples"] for it in tup]
+    for j, (it0, it1) in enumerate(zip(flat0, obs.get("end", []))):
+        if it0 is None or it1 is None:
+            if it0 is not it1:
+                out.append(("shared-value", f"object {j} appeared/disappeared"))
+            continue
+        for a, (a0, a1) in enumerate(zip(it0["attrs"], it1["attrs"])):
+            want = a0["v"]
+            for inner, mk in muts.get((j, a), []):
+                want = _mut_canon(want, inner, mk)
+            if a1["v"] != want:
+                out.append(("shared-value", f"object {j} (row {j // n}, class {j % n}) attribute {a} read {a0['v']!r}; after the caller's "
+                                            f"edits it is {a1['v']!r}, the caller's own edits of this value give {want!r}"))
+            if (a0["o"], a0["ko"], a0["kn"]) != (a1["o"], a1["ko"], a1["kn"]):
+                out.append(("shared-origin", f"object {j} attribute {a}: get_attr_origin changed after edits of values"))
+    seen = set()
+    uniq = []
+    for sig, msg in out:
+        if sig not in seen:
+            seen.add(sig)
+            uniq.append((sig, msg[:1500]))
+    return uniq
+
+
+def _shrink_multi(case):
+    rows = case["rows"]
+    if case.get("muts"):
+        yield dict(case, muts=[])
+        for i in range(len(case["muts"]) - 1, -1, -1):
+            yield dict(case, muts=case["muts"][:i] + case["muts"][i + 1:])
+    for i in range(len(rows) - 1, -1, -1):
+        yield dict(case, rows=rows[:i] + rows[i + 1:], muts=[])
+    if rows:
+        w = max(len(r) for r in rows)
+        for j in range(w - 1, -1, -1):
+            yield dict(case, rows=[r[:j] + r[j + 1:] for r in rows], muts=[])
+    for i in range(len(case["objs"]) - 1, -1, -1):
+        if any(ob.get("same_as", -1) >= i for ob in case["objs"]):
+            continue
+        yield dict(case, objs=case["objs"][:i] + case["objs"][i + 1:], muts=[])
+    for i, ob in enumerate(case["objs"]):
+        if len(ob["rules"]) > 1 and "same_as" not in ob and not any(o.get("same_as") == i for o in case["objs"]):
+            ob2 = dict(ob, rules=ob["rules"][:-1], nid=min(ob["nid"], len(ob["rules"]) - 1))
+            yield dict(case, objs=case["objs"][:i] + [ob2] + case["objs"][i + 1:], muts=[])
 
 
 TECHNIQUE = ("Coq proofs (structural induction over rows / columns, invariants of the row loop, refinement of the ladder "
